@@ -1,5 +1,6 @@
 import FH.RuleLemmas
 import FH.PtrAuth
+import FH.NoPanic
 /-!
 # C09 — Totality on arbitrary runtime state
 
@@ -32,6 +33,89 @@ theorem C09_checked_add_signed_exact (a : Nat) (b : Int) (ha : a < U64)
 /-- `PtrAuthMask::from_max_known_address` is total (the shift amount handed to the
 unchecked-looking `>>` is guarded): the model has no panic outcome and is defined for 0. -/
 theorem C09_fromMaxKnown_zero : fromMaxKnown 0 = 0 := by decide
+
+/-! ## The whole call
+
+For every unwinder whose Mach-O opcode fields are in the range of their Rust types (`Unw.WF`;
+DWARF rows, PE tables, text bytes, ranges, addresses, registers and the stack reader are
+arbitrary), every rule cache holding rules in range (which every reachable cache does: the
+first component of each theorem is the preservation), and every call:
+`unwind_frame` has a panic outcome only where the PE operation interpreter has one - the
+unchecked arithmetic of pe-unwind-info's `resolve_operation` (known finding F8-dep, third-party)
+- and on aarch64 never. -/
+
+theorem C09_unwind_frame_x64_panics_only_in_pe_interpreter (N : Nat) (u : Unw)
+    (c : Cache archX64.Rule) (addr : FrameAddr) (regs : archX64.Regs) (mem : Mem) (hu : u.WF)
+    (hc : CacheSafeX64 c) :
+    CacheSafeX64 (unwindFrame archX64 N u c addr regs mem).1 ∧
+    ∀ s, (unwindFrame archX64 N u c addr regs mem).2 = .panic s →
+      ∃ i rel m p, findModule u.mods addr.lookup = some (i, rel) ∧ u.mods[i]? = some m ∧
+        plan archX64 m rel (!addr.isReturn) = .pe p ∧
+        peRun p (!addr.isReturn) regs mem = .panic s := by
+  have hm := missPath_x64 u hu addr regs mem
+  unfold unwindFrame
+  dsimp only
+  have hslots := lookup_slots N c addr.lookup u.gen
+  cases hl : (c.lookup N addr.lookup u.gen).2 with
+  | hit rule =>
+    dsimp only
+    obtain ⟨s0, e, he, hr⟩ := lookup_hit_mem N c _ _ rule hl
+    have hsafe : rule.Safe := hr ▸ hc s0 e he
+    refine ⟨?_, ?_⟩
+    · intro s e' h; rw [hslots] at h; exact hc s e' h
+    · intro s h; exact absurd h (execX64_no_panic_safe _ _ _ _ hsafe s)
+  | miss =>
+    dsimp only
+    cases hi : (missPath archX64 u addr regs mem).1 with
+    | none =>
+      dsimp only
+      refine ⟨?_, hm.2⟩
+      intro s e' h; rw [hslots] at h; exact hc s e' h
+    | some rule =>
+      dsimp only
+      refine ⟨?_, hm.2⟩
+      intro s e' h
+      simp only [Cache.insert] at h
+      split at h
+      · injection h with h; subst h; exact hm.1 rule hi
+      · rw [hslots] at h; exact hc s e' h
+
+theorem C09_unwind_frame_a64_never_panics (N : Nat) (u : Unw) (c : Cache archA64.Rule)
+    (addr : FrameAddr) (regs : archA64.Regs) (mem : Mem) (hu : u.WF) (hc : CacheWFA64 c) :
+    CacheWFA64 (unwindFrame archA64 N u c addr regs mem).1 ∧
+    ∀ s, (unwindFrame archA64 N u c addr regs mem).2 ≠ .panic s := by
+  have hm := missPath_a64 u hu addr regs mem
+  unfold unwindFrame
+  dsimp only
+  have hslots := lookup_slots N c addr.lookup u.gen
+  cases hl : (c.lookup N addr.lookup u.gen).2 with
+  | hit rule =>
+    dsimp only
+    obtain ⟨s0, e, he, hr⟩ := lookup_hit_mem N c _ _ rule hl
+    have hwf : rule.WF := hr ▸ hc s0 e he
+    refine ⟨?_, ?_⟩
+    · intro s e' h; rw [hslots] at h; exact hc s e' h
+    · intro s; exact execA64_no_panic _ _ _ _ hwf s
+  | miss =>
+    dsimp only
+    cases hi : (missPath archA64 u addr regs mem).1 with
+    | none =>
+      dsimp only
+      refine ⟨?_, hm.2⟩
+      intro s e' h; rw [hslots] at h; exact hc s e' h
+    | some rule =>
+      dsimp only
+      refine ⟨?_, hm.2⟩
+      intro s e' h
+      simp only [Cache.insert] at h
+      split at h
+      · injection h with h; subst h; exact hm.1 rule hi
+      · rw [hslots] at h; exact hc s e' h
+
+/-- The empty cache satisfies the cache hypotheses, so by the preservation halves they hold
+along every history. -/
+theorem C09_empty_cache_ok : CacheSafeX64 Cache.empty ∧ CacheWFA64 Cache.empty := by
+  constructor <;> intro s e h <;> simp [Cache.empty] at h
 
 -- Non-vacuity: concrete rules / states meeting the hypotheses.
 example : (RuleX64.offsetSpAndPopRegisters 65535 255 65535).WF := by simp [RuleX64.WF, U16]
